@@ -674,6 +674,7 @@ type Frame struct {
 	rangeIt map[ssa.Value]*rangeState
 	iterCells map[ssa.Value]*Cell
 	loopInfos map[*ssa.BasicBlock]*loopInfo
+	loopAlias map[*ssa.BasicBlock]map[string]string
 	pendingCells []pendingCell // cells created while defining phis: installed into the block's entry state
 }
 
